@@ -12,6 +12,9 @@ def jobs(tier):
             J.append(job(W, alg, 3, size=3)); J.append(job(W, alg, 4, size=3, order='desc'))
         else:
             J.append(job(W, alg, 4, size=2))
+    # repeated values: with a plain list equal values are equal ITEMS, with names they are not
+    for alg in ('ckk', 'snp', 'rnp'):
+        J.append(job(W, alg, 5, size=3, order='asc', groups=[4, 1])); J.append(job(W, alg, 6, size=3, order='asc', groups=[3, 2, 1]))
     J.append(job(W, 'multifit', 3, size=2, iterations=2))
     for o in ('diff', 'max', 'min'):
         J.append(job(W, 'dp', 3, size=2, obj=o)); J.append(job(W, 'cg', 3, size=2, obj=o))
